@@ -287,7 +287,8 @@ func (m *Machine) deepEq(a, b Value, d int) *sym.Term {
 		for _, e := range ea {
 			found := false
 			for _, f := range eb {
-				if m.Branch(m.Equal(x.M.KeyT, e.K, f.K)) {
+				// keys are matched structurally (a cloned pointer key is a different pointer)
+				if m.Branch(m.deepEq(e.K, f.K, d+1)) {
 					r = m.S.And(r, m.deepEq(e.V, f.V, d+1))
 					found = true
 					break
